@@ -3,7 +3,7 @@
    equals the implementation on every generated document; witnesses below, one per recorded
    finding class that the model covers.  What the validator demands is made explicit. *)
 From HL Require Import Lib.Bytes Model.Lexer Model.Parser Model.References Model.Ranges Spec.RangeSpec Spec.FormatSpec Model.Formatter
-  Proofs.RangesProofs Proofs.LexerLines Proofs.ParserLines.
+  Proofs.RangesProofs Proofs.LexerLines Proofs.ParserLines Proofs.ParserErrors.
 Open Scope Z_scope.
 
 Theorem C08_validator_range : forall lines r, range_ok lines r = true ->
@@ -67,3 +67,15 @@ Theorem C08_posting_lines_inside : forall input j errs, parse input = Some (j, e
   post_lines_ok j (split_lf input) = true.
 Proof. exact parse_post_lines_ok. Qed.
 Print Assumptions C08_posting_lines_inside.
+
+(* every syntax error (the range of every syntax-error diagnostic) is the start position of a token
+   of the stream, for every input; so its line lies inside the document *)
+Theorem C08_syntax_errors_at_token_positions : forall input j errs, parse input = Some (j, errs) ->
+  exists ts, lex input = Some ts /\ forall e, In e errs -> exists t, In t ts /\ e = tpos_of t.
+Proof. exact parse_errors_at_tokens. Qed.
+Print Assumptions C08_syntax_errors_at_token_positions.
+
+Theorem C08_syntax_error_lines_inside : forall input j errs, parse input = Some (j, errs) ->
+  forall l c, In (l, c) errs -> (1 <= l <= 1 + count10 input)%N.
+Proof. exact parse_error_lines_inside. Qed.
+Print Assumptions C08_syntax_error_lines_inside.
